@@ -692,6 +692,16 @@ func maxOf(e entrySpec) (int, bool) {
 
 func gen(r *hx.Rng, n int, tier string) []string {
 	var lines []string
+	// the minimum key sizes of the subtle constructors themselves (the key objects have their own
+	// checks in front of them, so only the subtle route reaches these comparisons)
+	for _, h := range []string{"SHA256", "SHA512"} {
+		for _, ks := range []int{15, 16} {
+			lines = append(lines, fmt.Sprintf("C15|S|HM|%s|%s|-|%s|16", h, hx.H(r.Bytes(ks)), hx.H(r.Bytes(5))))
+		}
+		for _, ks := range []int{31, 32} {
+			lines = append(lines, fmt.Sprintf("C15|S|HK|%s|%s|-|%s|16", h, hx.H(r.Bytes(ks)), hx.H(r.Bytes(5))))
+		}
+	}
 	for c := 0; c < n; c++ {
 		switch x := r.Intn(100); {
 		case x < 40: // subtle constructors: every hash, every key size
@@ -700,11 +710,11 @@ func gen(r *hx.Rng, n int, tier string) []string {
 			case 0:
 				e.kind, e.hash = "HM", hx.PickS(r, hashes)
 				b := blockSz[e.hash]
-				e.kb = r.Bytes(r.Pick([]int{0, 1, 16, 32, b - 1, b, b + 1, 2 * b, r.Intn(200)}))
+				e.kb = r.Bytes(r.Pick([]int{0, 1, 15, 16, 17, 32, b - 1, b, b + 1, 2 * b, r.Intn(200)})) // 15/16: the subtle constructor's own minimum
 			case 1:
 				e.kind, e.hash = "HK", hx.PickS(r, hashes)
 				b := blockSz[e.hash]
-				e.kb = r.Bytes(r.Pick([]int{0, 1, 16, 32, b - 1, b, b + 1, 2 * b, r.Intn(200)}))
+				e.kb = r.Bytes(r.Pick([]int{0, 1, 16, 31, 32, 33, b - 1, b, b + 1, 2 * b, r.Intn(200)})) // 31/32: the subtle constructor's own minimum
 				e.salt = genSalt(r, e.hash)
 			case 2:
 				e.kind, e.hash = "CM", "-"
